@@ -97,8 +97,12 @@ def real_cases(ctx, rng, nkeys):
     digests = [0, N256 - 1, N256, N256 + 1, 2 ** 256 - 1, 1, 2 ** 255]
     pairs = [(secrets[i % len(secrets)], digests[i % len(digests)]) for i in range(min(nkeys, 8))]
     pairs += [(rng.randrange(1, N256), rng.randrange(2 ** 256)) for _ in range(max(0, nkeys - len(pairs)))]
+    # one key object signs several digests, and the same digest again later (the nonce and the signature depend on the digest,
+    # not on what the object signed before)
+    pairs += [(pairs[0][0], rng.randrange(2 ** 256)), (pairs[1][0], pairs[2][1]), (pairs[0][0], pairs[0][1]), (pairs[-1][0], rng.randrange(2 ** 256))]
+    pkcache = {}
     for i, (d, z) in enumerate(pairs):
-        pk = pecc.PrivateKey(d)
+        pk = pkcache.setdefault(d, pecc.PrivateKey(d))
         calls = []
         orig_new = pecc.hmac.new
 
